@@ -323,6 +323,43 @@ def build(tier):
     P.contract(MS + "clear", params={"self": "obj:MS"}, requires=["RB_INV(self)"],
                modifies=["self._size", "self._cursor", "self._storage", "self.initialized", "self.gtot", "self.n_step_buffer"],
                ensures=["self._size == 0", "len(self.n_step_buffer) == 0"], frame_fields=False, replay="c10:clear")
+    # sample_from_indices: the k-th n-step sample is the stored transition idxs[k] - one row per index, whether the 1-step buffer
+    # reports its indices as a vector (uniform buffer) or as a column (prioritised buffer)
+    from . import ndt
+    from .ndt import ND
+    BATCH = z3.Int("n_indices")
+    IDX = z3.Function("given_index", z3.IntSort(), z3.IntSort())
+    ROW = z3.Function("stored_row", z3.IntSort(), z3.IntSort())
+    P.axioms += [BATCH >= 1]
+
+    class Batch:
+        def __init__(self, shape, row):
+            self.shape, self.row = shape, row
+
+    class Storage:
+        def getitem(self, ex, st, idx):
+            if not isinstance(idx, ND):
+                raise Undecided("storage indexed by a non-tensor")
+            return Batch(list(idx.shape), lambda m: ROW(z3ify(idx.at(m))))
+
+    def sfi_self(ex, st, label):
+        o = Obj(RB + "MultiStepReplayBuffer", label="self")
+        o.fields.update(dict(_storage=Storage(), _size=z3.Int("size"), max_size=z3.Int("max_size")))
+        return o
+
+    def sfi_post(r):
+        k = z3.Int("k!sfi")
+        if not (isinstance(r, Batch) and len(r.shape) == 1 and ndt.same_dim(r.shape[0], BATCH)):
+            return z3.BoolVal(False)                         # the batch must have one dimension of length len(idxs), like the 1-step batch
+        return z3.ForAll([k], z3.Implies(z3.And(0 <= k, k < BATCH), r.row([k]) == ROW(IDX(k))))
+    P.specns["sfi_post"] = sfi_post
+    for nm, shape in (("vector", [BATCH]), ("column", [BATCH, 1])):
+        P.contract(MS + "sample_from_indices", variant=f"idxs-{nm}",
+                   params={"self": sfi_self, "idxs": (lambda ex, st, l, shape=shape: ND(list(shape), lambda m: IDX(z3ify(m[0])), "idxs"))},
+                   requires=[], frame_fields=False, ensures=["sfi_post(result)"], replay="c10:per_nstep")
+    for k_, f_ in ndt.LIB.items():
+        P.lib.setdefault(k_, f_)
+    P.trusted.append(ndt.DOC)
     P.assumptions += ["A-REAL: rewards/discounts are reals; gamma**k is an uninterpreted pow with pow(x,0)=1",
                       "the window is a read-only sequence inside _get_n_step_info (deque(maxlen) semantics trusted in add)",
                       "stream continuity across env.reset() between agents in train_off_policy is a caller-history precondition (not checked)"]
